@@ -151,6 +151,7 @@ def _work(job):
     bad = v[0] != 'A' or (tr.exc is not None and prop.exc_is_violation)
     if bad and 'soft' in res:
         res['soft']['cfg'] = cfg
+        res['soft']['finding'] = findings.match(prop.id, cfg, tr, v)
         res['soft']['detail'] = prop.explain(tr, v) if hasattr(prop, 'explain') else None
         bad = False
         res['verdict'] = ('A', [])
@@ -303,7 +304,8 @@ def run_check(pid, tier, seed, replay=None):
     t0 = time.time()
     prop = load_prop(pid)
     os.makedirs(REPLAYS, exist_ok=True)
-    os.makedirs(os.path.join(VERIF, 'evidence'), exist_ok=True)
+    EVDIR = os.environ.get('VERIF_EVIDENCE_DIR') or os.path.join(VERIF, 'evidence')
+    os.makedirs(EVDIR, exist_ok=True)
     pr = proof_step(pid, thorough=(tier == 'thorough'))
     lines = []
     if replay:
@@ -413,6 +415,11 @@ def run_check(pid, tier, seed, replay=None):
         exit_code = 1
     softs = [r['soft'] for r in results if r.get('soft')]
     cov_soft = len(softs)
+    for s0 in softs:
+        if s0.get('finding'):
+            known_hit[s0['finding']] = known_hit.get(s0['finding'], 0) + 1
+    softs = [s0 for s0 in softs if not s0.get('finding')]
+    lines[:] = ['KNOWN-FINDING: property=%s %s (%s) hit %d time(s)' % (pid, f, findings.describe(f), cnt) for f, cnt in sorted(known_hit.items())] + [l for l in lines if not l.startswith('KNOWN-FINDING')]
     if softs and exit_code == 0:
         path = os.path.join(REPLAYS, '%s_%s_correspondence.json' % (pid, tier))
         s0 = softs[0]
@@ -446,7 +453,7 @@ def run_check(pid, tier, seed, replay=None):
     ev = {'property_id': pid, 'tier': tier, 'seed': seed, 'level': 'proof', 'coverage': cov,
           'assumptions': getattr(prop, 'assumptions', []) + ['exact arithmetic on ticks; float rounding not modelled'],
           'wall_s': round(time.time() - t0, 2), 'violations': len(violations)}
-    json.dump(ev, open(os.path.join(VERIF, 'evidence', pid + '.json'), 'w'), indent=1, default=str)
+    json.dump(ev, open(os.path.join(EVDIR, pid + '.json'), 'w'), indent=1, default=str)
     for l in lines:
         print(l)
     print('%s %s: %d runs, %d accepted, %d non-trivial, %d rejected, %d known, proofs %s/%s, %.1fs' % (
